@@ -629,7 +629,7 @@ func sortedSets(sets [][]int) []string {
 
 // builtBy returns g as a DenseGraph and a SparseGraph produced by the library's own constructors or decoders
 // ("literal" = assembled from the exported fields). Edit histories and transformations must work on all of them.
-var buildWays = []string{"literal", "constructors", "decoders", "edited"}
+var buildWays = []string{"literal", "constructors", "decoders", "edited", "nonunit"}
 
 func builtBy(how string, g *oracle.G) (d *graph.DenseGraph, s *graph.SparseGraph, err error) {
 	if p := try(func() {
@@ -646,6 +646,15 @@ func builtBy(how string, g *oracle.G) (d *graph.DenseGraph, s *graph.SparseGraph
 				lists[v] = sortints.SortedInts(g.Nbrs(v))
 			}
 			s = graph.NewSparse(n, lists)
+		case "nonunit":
+			// NewDense with edge markers other than 1 (any non-zero byte is an edge); the sparse twin is built normally
+			n := g.N
+			b := make([]byte, n*(n-1)/2)
+			for k, e := range g.Edges() {
+				b[e[1]*(e[1]-1)/2+e[0]] = []byte{1, 2, 255, 7}[k%4]
+			}
+			d = graph.NewDense(n, b)
+			s = sparseOf(g)
 		case "decoders":
 			var e1, e2 error
 			d, e1 = graph.Graph6Decode(oracle.RefGraph6(g))
